@@ -1,12 +1,1016 @@
-//! C10 - not built yet.
-use crate::run::Ctx;
-use serde_json::Value;
+//! C10 - each operation accepts exactly the option combinations Temporal allows; omitted options
+//! resolve to the specified defaults. Complete enumeration of the cell matrix against the
+//! table-driven oracle in `c10/options.rs` (DESIGN.md section 6 "C10", Appendix A).
 
-pub fn run(_ctx: &mut Ctx) {
-    eprintln!("property C10 has no check yet");
-    std::process::exit(2);
+pub mod options;
+
+use crate::conv::*;
+use crate::refm::civil::*;
+use crate::refm::dateadd::{Dt, Ymd};
+use crate::refm::dur::{Dur, U, UNITS};
+use crate::refm::round::{Mode, MODES};
+use crate::refm::tz::Zone;
+use crate::run::*;
+use crate::tzp::TableProvider;
+use options::*;
+use serde::{Deserialize, Serialize};
+use serde_json::{json, Value};
+use std::collections::BTreeMap;
+use std::sync::OnceLock;
+use temporal_rs::options::{ArithmeticOverflow, RelativeTo, ToStringRoundingOptions, Unit};
+use temporal_rs::parsers::Precision;
+use temporal_rs::{Instant, PlainYearMonth, TimeZone, ZonedDateTime};
+
+const DAY: i64 = 86_400_000_000_000;
+
+/// increments: the covering set of DESIGN.md (1, divisors and non-divisors of 24/60/1000, the maxima
+/// and maxima+1, 86400 = seconds per day, 1e9 = largest legal increment) plus the two remaining
+/// inclusive maxima of Instant.round (1440 minutes, 86400000 ms); `None` = absent
+const INCS: [Option<u32>; 29] = [
+    None,
+    Some(1),
+    Some(2),
+    Some(3),
+    Some(4),
+    Some(5),
+    Some(6),
+    Some(7),
+    Some(8),
+    Some(10),
+    Some(12),
+    Some(15),
+    Some(20),
+    Some(24),
+    Some(25),
+    Some(30),
+    Some(50),
+    Some(59),
+    Some(60),
+    Some(100),
+    Some(250),
+    Some(500),
+    Some(999),
+    Some(1000),
+    Some(1001),
+    Some(1440),
+    Some(86_400),
+    Some(86_400_000),
+    Some(1_000_000_000),
+];
+
+fn all_uopts() -> Vec<UOpt> {
+    let mut v = vec![UOpt::Absent, UOpt::Auto];
+    v.extend(UNITS.iter().map(|u| UOpt::U(*u)));
+    v
+}
+fn all_modes() -> Vec<Option<Mode>> {
+    let mut v = vec![None];
+    v.extend(MODES.iter().map(|m| Some(*m)));
+    v
 }
 
-pub fn replay(_ctx: &mut Ctx, _sub: &str, _case: &Value) -> bool {
-    false
+// ------------------------------------------------------------------------------------------
+// operations
+
+#[derive(Clone, Copy, Debug, PartialEq, Eq, Serialize, Deserialize, Hash)]
+pub enum Op {
+    DateUntil,
+    DateSince,
+    DateTimeUntil,
+    DateTimeSince,
+    TimeUntil,
+    TimeSince,
+    YearMonthUntil,
+    YearMonthSince,
+    InstantUntil,
+    InstantSince,
+    ZonedUtcUntil,
+    ZonedUtcSince,
+    ZonedRuleUntil,
+    ZonedRuleSince,
+    /// Duration::round_with_provider, duration without calendar units, no relativeTo
+    DurationRound,
+    /// ... duration with calendar units, PlainDate relativeTo
+    DurationRoundRel,
+    /// ... duration with calendar units, no relativeTo (every cell must be rejected)
+    DurationRoundCalNoRel,
+    DurationTotal,
+    DurationTotalRel,
+    DurationTotalCalNoRel,
+    TimeRound,
+    DateTimeRound,
+    InstantRound,
+}
+
+pub const OPS: [Op; 23] = [
+    Op::DateUntil,
+    Op::DateSince,
+    Op::DateTimeUntil,
+    Op::DateTimeSince,
+    Op::TimeUntil,
+    Op::TimeSince,
+    Op::YearMonthUntil,
+    Op::YearMonthSince,
+    Op::InstantUntil,
+    Op::InstantSince,
+    Op::ZonedUtcUntil,
+    Op::ZonedUtcSince,
+    Op::ZonedRuleUntil,
+    Op::ZonedRuleSince,
+    Op::DurationRound,
+    Op::DurationRoundRel,
+    Op::DurationRoundCalNoRel,
+    Op::DurationTotal,
+    Op::DurationTotalRel,
+    Op::DurationTotalCalNoRel,
+    Op::TimeRound,
+    Op::DateTimeRound,
+    Op::InstantRound,
+];
+
+impl Op {
+    pub fn name(self) -> &'static str {
+        match self {
+            Op::DateUntil => "PlainDate.until",
+            Op::DateSince => "PlainDate.since",
+            Op::DateTimeUntil => "PlainDateTime.until",
+            Op::DateTimeSince => "PlainDateTime.since",
+            Op::TimeUntil => "PlainTime.until",
+            Op::TimeSince => "PlainTime.since",
+            Op::YearMonthUntil => "PlainYearMonth.until",
+            Op::YearMonthSince => "PlainYearMonth.since",
+            Op::InstantUntil => "Instant.until",
+            Op::InstantSince => "Instant.since",
+            Op::ZonedUtcUntil => "ZonedDateTime[UTC].until",
+            Op::ZonedUtcSince => "ZonedDateTime[UTC].since",
+            Op::ZonedRuleUntil => "ZonedDateTime[rule-zone].until",
+            Op::ZonedRuleSince => "ZonedDateTime[rule-zone].since",
+            Op::DurationRound => "Duration.round",
+            Op::DurationRoundRel => "Duration.round[relativeTo]",
+            Op::DurationRoundCalNoRel => "Duration.round[calendar-units,no-relativeTo]",
+            Op::DurationTotal => "Duration.total",
+            Op::DurationTotalRel => "Duration.total[relativeTo]",
+            Op::DurationTotalCalNoRel => "Duration.total[calendar-units,no-relativeTo]",
+            Op::TimeRound => "PlainTime.round",
+            Op::DateTimeRound => "PlainDateTime.round",
+            Op::InstantRound => "Instant.round",
+        }
+    }
+    /// (type, is_since, the matching `until` operation)
+    pub fn diff(self) -> Option<(DiffType, bool, Op)> {
+        Some(match self {
+            Op::DateUntil => (DiffType::PlainDate, false, Op::DateUntil),
+            Op::DateSince => (DiffType::PlainDate, true, Op::DateUntil),
+            Op::DateTimeUntil => (DiffType::PlainDateTime, false, Op::DateTimeUntil),
+            Op::DateTimeSince => (DiffType::PlainDateTime, true, Op::DateTimeUntil),
+            Op::TimeUntil => (DiffType::PlainTime, false, Op::TimeUntil),
+            Op::TimeSince => (DiffType::PlainTime, true, Op::TimeUntil),
+            Op::YearMonthUntil => (DiffType::PlainYearMonth, false, Op::YearMonthUntil),
+            Op::YearMonthSince => (DiffType::PlainYearMonth, true, Op::YearMonthUntil),
+            Op::InstantUntil => (DiffType::Instant, false, Op::InstantUntil),
+            Op::InstantSince => (DiffType::Instant, true, Op::InstantUntil),
+            Op::ZonedUtcUntil => (DiffType::ZonedDateTime, false, Op::ZonedUtcUntil),
+            Op::ZonedUtcSince => (DiffType::ZonedDateTime, true, Op::ZonedUtcUntil),
+            Op::ZonedRuleUntil => (DiffType::ZonedDateTime, false, Op::ZonedRuleUntil),
+            Op::ZonedRuleSince => (DiffType::ZonedDateTime, true, Op::ZonedRuleUntil),
+            _ => return None,
+        })
+    }
+    fn round_type(self) -> Option<RoundType> {
+        match self {
+            Op::TimeRound => Some(RoundType::PlainTime),
+            Op::DateTimeRound => Some(RoundType::PlainDateTime),
+            Op::InstantRound => Some(RoundType::Instant),
+            _ => None,
+        }
+    }
+    fn is_duration_round(self) -> bool {
+        matches!(self, Op::DurationRound | Op::DurationRoundRel | Op::DurationRoundCalNoRel)
+    }
+    fn is_duration_total(self) -> bool {
+        matches!(self, Op::DurationTotal | Op::DurationTotalRel | Op::DurationTotalCalNoRel)
+    }
+    /// operation class used in narrow finding signatures: which option-resolution routine of the
+    /// specification the operation goes through
+    fn class(self) -> &'static str {
+        match self.diff() {
+            Some((DiffType::PlainDate, ..)) | Some((DiffType::PlainYearMonth, ..)) => "diff[date-group]",
+            Some((DiffType::PlainTime, ..)) | Some((DiffType::Instant, ..)) => "diff[time-group]",
+            Some(_) => "diff[datetime-group]",
+            None => {
+                if self.is_duration_round() {
+                    "Duration.round"
+                } else if self.is_duration_total() {
+                    "Duration.total"
+                } else {
+                    self.name()
+                }
+            }
+        }
+    }
+}
+
+// ------------------------------------------------------------------------------------------
+// operands
+
+/// One operand set. `t0`, `t1`: two points as nanoseconds since 1970-01-01T00:00 (read as a wall
+/// reading for the plain types and as epoch nanoseconds for Instant/ZonedDateTime; PlainDate uses the
+/// day, PlainTime the time of day, PlainYearMonth the year and month). `dur`: the duration operand of
+/// the Duration operations (the no-relativeTo variants use it with years/months/weeks set to 0); its
+/// relativeTo is the date of `t0`.
+#[derive(Clone, Copy, Debug, PartialEq, Eq, Serialize, Deserialize)]
+pub struct Opnd {
+    pub t0: i64,
+    pub t1: i64,
+    pub dur: [i64; 10],
+}
+
+fn wall(y: i64, m: u8, d: u8, h: i64, mi: i64, s: i64, ns: i64) -> i64 {
+    to_days(y, m, d) * DAY + ((h * 60 + mi) * 60 + s) * 1_000_000_000 + ns
+}
+
+/// The fixed mid-range operand sets. First two: 2019-03-14T01:02:03.004005006 and
+/// 2024-12-31T17:42:38.571683947 (5 y 9 mo 17 d 16 h 40 min 35.567678941 s apart: the remainder
+/// below every unit is non-zero and above one half, so trunc / halfExpand / ceil / floor all give
+/// different answers at every smallestUnit), forwards and backwards.
+pub fn fixed_operands() -> Vec<Opnd> {
+    let a = wall(2019, 3, 14, 1, 2, 3, 4_005_006);
+    let b = wall(2024, 12, 31, 17, 42, 38, 571_683_947);
+    let dur = [5, 9, 2, 3, 16, 40, 35, 567, 678, 941];
+    let neg = dur.map(|x: i64| -x);
+    // + the same day at two times (PlainDate / PlainYearMonth operands are equal: zero result before any
+    //   rounding) and two days of the same month (only the PlainYearMonth operands are equal)
+    let same_day = wall(2019, 3, 14, 17, 42, 38, 571_683_947);
+    let same_month = wall(2019, 3, 30, 17, 42, 38, 571_683_947);
+    vec![
+        Opnd { t0: a, t1: b, dur },
+        Opnd { t0: b, t1: a, dur: neg },
+        Opnd { t0: a, t1: same_day, dur: [0, 0, 0, 0, 16, 40, 35, 567, 678, 941] },
+        Opnd { t0: same_month, t1: a, dur: [0, 0, -2, -2, -16, -40, -35, -567, -678, -941] },
+    ]
+}
+
+fn day_of(t: i64) -> i64 {
+    t.div_euclid(DAY)
+}
+fn ns_of(t: i64) -> i64 {
+    t.rem_euclid(DAY)
+}
+
+fn rule_zone() -> Zone {
+    // a -05:00 zone with one-hour daylight saving 1990..=2050: +1 h on March 10 07:00Z, back on
+    // November 3 06:00Z (fixed dates, so the table is obviously what it says)
+    let mut trans = vec![];
+    for y in 1990..=2050i64 {
+        trans.push((to_days(y, 3, 10) * 86_400 + 7 * 3600, -4 * 3600));
+        trans.push((to_days(y, 11, 3) * 86_400 + 6 * 3600, -5 * 3600));
+    }
+    Zone { name: "Test/Rule".into(), initial: -5 * 3600, trans }
+}
+
+fn provider() -> &'static TableProvider {
+    static P: OnceLock<TableProvider> = OnceLock::new();
+    P.get_or_init(|| TableProvider::new(vec![rule_zone()]))
+}
+fn tz_utc() -> TimeZone {
+    TimeZone::IanaIdentifier("UTC".into())
+}
+fn tz_rule() -> TimeZone {
+    TimeZone::IanaIdentifier("Test/Rule".into())
+}
+
+// ------------------------------------------------------------------------------------------
+// execution
+
+#[derive(Clone, Debug, PartialEq)]
+pub enum Val {
+    D([f64; 10]),
+    N(i128),
+    F(f64),
+    S(String),
+}
+impl Val {
+    fn same(&self, o: &Val) -> bool {
+        match (self, o) {
+            (Val::D(a), Val::D(b)) => fields_eq(a, b),
+            (a, b) => a == b,
+        }
+    }
+    fn negated(&self) -> Val {
+        match self {
+            Val::D(a) => Val::D(a.map(|x| -x)),
+            v => v.clone(),
+        }
+    }
+}
+
+#[derive(Clone, Debug, PartialEq)]
+pub enum Res {
+    Ok(Val),
+    Err(&'static str, String),
+    /// normalised location (`src/...:line`), message
+    Panic(String, String),
+}
+impl Res {
+    fn label(&self) -> String {
+        match self {
+            Res::Ok(_) => "Ok".into(),
+            Res::Err(k, _) => (*k).to_string(),
+            Res::Panic(loc, _) => format!("panic@{loc}"),
+        }
+    }
+    fn show(&self) -> String {
+        match self {
+            Res::Ok(v) => format!("Ok({v:?})"),
+            Res::Err(k, m) => format!("Err({k}: {m})"),
+            Res::Panic(loc, m) => format!("panic@{loc}: {m}"),
+        }
+    }
+}
+
+fn norm_loc(p: &str) -> (String, String) {
+    // "panic@<loc>: msg"; keep the path from its last "src/" on so that the location does not depend
+    // on where the crate's sources live
+    let rest = p.strip_prefix("panic@").unwrap_or(p);
+    let (loc, msg) = match rest.find(": ") {
+        Some(i) => (&rest[..i], &rest[i + 2..]),
+        None => (rest, ""),
+    };
+    let loc = match loc.rfind("src/") {
+        Some(i) => &loc[i..],
+        None => loc,
+    };
+    (loc.to_string(), msg.to_string())
+}
+
+fn uo(u: UOpt) -> Option<Unit> {
+    match u {
+        UOpt::Absent => None,
+        UOpt::Auto => Some(Unit::Auto),
+        UOpt::U(x) => Some(unit(x)),
+    }
+}
+
+fn dur_fields(op: Op, o: &Opnd) -> [i64; 10] {
+    let mut f = o.dur;
+    if matches!(op, Op::DurationRound | Op::DurationTotal) {
+        f[0] = 0;
+        f[1] = 0;
+        f[2] = 0;
+    }
+    f
+}
+fn existing_largest(op: Op, o: &Opnd) -> U {
+    let f = dur_fields(op, o);
+    Dur { f: f.map(|x| x as i128) }.largest_unit()
+}
+
+fn run_op(op: Op, l: UOpt, s: UOpt, inc: Option<u32>, m: Option<Mode>, o: &Opnd) -> temporal_rs::TemporalResult<Val> {
+    let dval = |d: temporal_rs::Duration| Val::D(duration_fields(&d));
+    let ds = || diff_settings(uo(l), uo(s), inc, m.map(mode));
+    let ro = || round_options(uo(l), uo(s), inc, m.map(mode));
+    let (d0, d1, n0, n1) = (day_of(o.t0), day_of(o.t1), ns_of(o.t0), ns_of(o.t1));
+    match op {
+        Op::DateUntil | Op::DateSince => {
+            let a = plain_date(Ymd::from_n(d0)).expect("operand");
+            let b = plain_date(Ymd::from_n(d1)).expect("operand");
+            if op == Op::DateSince { a.since(&b, ds()) } else { a.until(&b, ds()) }.map(dval)
+        }
+        Op::DateTimeUntil | Op::DateTimeSince => {
+            let a = plain_datetime(Dt { day: d0, ns: n0 as i128 }).expect("operand");
+            let b = plain_datetime(Dt { day: d1, ns: n1 as i128 }).expect("operand");
+            if op == Op::DateTimeSince { a.since(&b, ds()) } else { a.until(&b, ds()) }.map(dval)
+        }
+        Op::TimeUntil | Op::TimeSince => {
+            let a = plain_time(n0 as i128).expect("operand");
+            let b = plain_time(n1 as i128).expect("operand");
+            if op == Op::TimeSince { a.since(&b, ds()) } else { a.until(&b, ds()) }.map(dval)
+        }
+        Op::YearMonthUntil | Op::YearMonthSince => {
+            let (ya, yb) = (Ymd::from_n(d0), Ymd::from_n(d1));
+            let a = PlainYearMonth::new_with_overflow(ya.y as i32, ya.m, None, iso(), ArithmeticOverflow::Reject).expect("operand");
+            let b = PlainYearMonth::new_with_overflow(yb.y as i32, yb.m, None, iso(), ArithmeticOverflow::Reject).expect("operand");
+            if op == Op::YearMonthSince { a.since(&b, ds()) } else { a.until(&b, ds()) }.map(dval)
+        }
+        Op::InstantUntil | Op::InstantSince => {
+            let a = Instant::try_new(o.t0 as i128).expect("operand");
+            let b = Instant::try_new(o.t1 as i128).expect("operand");
+            if op == Op::InstantSince { a.since(&b, ds()) } else { a.until(&b, ds()) }.map(dval)
+        }
+        Op::ZonedUtcUntil | Op::ZonedUtcSince | Op::ZonedRuleUntil | Op::ZonedRuleSince => {
+            let tz = if matches!(op, Op::ZonedUtcUntil | Op::ZonedUtcSince) { tz_utc() } else { tz_rule() };
+            let a = ZonedDateTime::try_new(o.t0 as i128, iso(), tz.clone()).expect("operand");
+            let b = ZonedDateTime::try_new(o.t1 as i128, iso(), tz).expect("operand");
+            if matches!(op, Op::ZonedUtcSince | Op::ZonedRuleSince) {
+                a.since_with_provider(&b, ds(), provider())
+            } else {
+                a.until_with_provider(&b, ds(), provider())
+            }
+            .map(dval)
+        }
+        Op::DurationRound | Op::DurationRoundRel | Op::DurationRoundCalNoRel => {
+            let f = dur_fields(op, o).map(|x| x as f64);
+            let d = duration_from_f64s(&f).expect("operand");
+            let rel = if op == Op::DurationRoundRel { Some(RelativeTo::PlainDate(plain_date(Ymd::from_n(d0)).expect("operand"))) } else { None };
+            d.round_with_provider(ro(), rel, provider()).map(dval)
+        }
+        Op::DurationTotal | Op::DurationTotalRel | Op::DurationTotalCalNoRel => {
+            let f = dur_fields(op, o).map(|x| x as f64);
+            let d = duration_from_f64s(&f).expect("operand");
+            let rel = if op == Op::DurationTotalRel { Some(RelativeTo::PlainDate(plain_date(Ymd::from_n(d0)).expect("operand"))) } else { None };
+            let u = uo(s).expect("total needs a unit");
+            d.total_with_provider(u, rel, provider()).map(|x| Val::F(x.as_inner()))
+        }
+        Op::TimeRound => {
+            let a = plain_time(n0 as i128).expect("operand");
+            let u = uo(s).expect("PlainTime::round needs a unit");
+            a.round(u, inc.map(|i| i as f64), m.map(mode)).map(|t| Val::N(time_ns(&t)))
+        }
+        Op::DateTimeRound => {
+            let a = plain_datetime(Dt { day: d0, ns: n0 as i128 }).expect("operand");
+            a.round(ro()).map(|p| {
+                let dt = dt_of(&p);
+                Val::N(dt.day as i128 * DAY as i128 + dt.ns)
+            })
+        }
+        Op::InstantRound => {
+            let a = Instant::try_new(o.t0 as i128).expect("operand");
+            a.round(ro()).map(|i| Val::N(i.as_i128()))
+        }
+    }
+}
+
+fn to_res(r: Result<temporal_rs::TemporalResult<Val>, String>) -> Res {
+    match r {
+        Ok(Ok(v)) => Res::Ok(v),
+        Ok(Err(e)) => Res::Err(kind_name(e.kind()), e.message().to_string()),
+        Err(p) => {
+            let (loc, msg) = norm_loc(&p);
+            Res::Panic(loc, msg)
+        }
+    }
+}
+
+fn exec(op: Op, l: UOpt, s: UOpt, inc: Option<u32>, m: Option<Mode>, o: &Opnd) -> Res {
+    to_res(guard(|| run_op(op, l, s, inc, m, o)))
+}
+
+// ------------------------------------------------------------------------------------------
+// oracle wiring
+
+/// (shortest, longest) length of a unit in days
+fn unit_days(u: U) -> (i128, i128) {
+    match u {
+        U::Year => (365, 366),
+        U::Month => (28, 31),
+        U::Week => (7, 7),
+        _ => (1, 1),
+    }
+}
+
+/// Accepted cells whose rounding has to build a date `increment` units away (NudgeToCalendarUnit adds
+/// the start and end durations to the reference date with a range check): with the largest increments
+/// that date is outside the supported range and the specified outcome is a RangeError from the
+/// computation, not from validation.
+fn adjust_for_range(op: Op, v: Verdict, o: &Opnd) -> Verdict {
+    let Verdict::Accept(r) = v else { return v };
+    let calendar_nudge = match op.diff() {
+        Some((DiffType::ZonedDateTime, ..)) => r.smallest.is_date(),
+        Some(_) => r.smallest.is_calendar(),
+        None => op == Op::DurationRoundRel && r.smallest.is_calendar(),
+    };
+    if !calendar_nudge || r.inc == 1 {
+        return v;
+    }
+    // equal operands: the difference operations return a zero duration before any rounding
+    let (a, b) = (Ymd::from_n(day_of(o.t0)), Ymd::from_n(day_of(o.t1)));
+    match op.diff() {
+        Some((DiffType::PlainDate, ..)) if a == b => return v,
+        Some((DiffType::PlainYearMonth, ..)) if (a.y, a.m) == (b.y, b.m) => return v,
+        _ => {}
+    }
+    let (dmin, dmax) = unit_days(r.smallest);
+    // the end of the rounding window lies (r1 + increment) units from the reference date, r1 <= the
+    // distance of the operands (<= 300 years for durations): `span` bounds reference + r1 in days
+    let span = (day_of(o.t0).abs().max(day_of(o.t1).abs()) + (day_of(o.t0) - day_of(o.t1)).abs()) as i128 + 366 * 400;
+    if r.inc as i128 * dmin - span > MAX_DAY as i128 {
+        return Verdict::AcceptThenRange(r);
+    }
+    if r.inc as i128 * dmax + span < MAX_DAY as i128 {
+        return v;
+    }
+    Verdict::Unjudged("increment reaches the edge of the supported date range: validation verdict not observable")
+}
+
+pub fn verdict(op: Op, l: UOpt, s: UOpt, inc: Option<u32>, m: Option<Mode>, o: &Opnd) -> Verdict {
+    let v = if let Some((t, _, _)) = op.diff() {
+        diff(t, l, s, inc, m)
+    } else if let Some(t) = op.round_type() {
+        round(t, s, inc, m)
+    } else if op.is_duration_round() {
+        duration_round(l, s, inc, m, existing_largest(op, o), op == Op::DurationRoundRel)
+    } else {
+        duration_total(s, existing_largest(op, o), op == Op::DurationTotalRel)
+    };
+    adjust_for_range(op, v, o)
+}
+
+#[derive(Clone, Debug, Serialize, Deserialize)]
+pub struct Cell {
+    pub op: Op,
+    pub l: UOpt,
+    pub s: UOpt,
+    pub inc: Option<u32>,
+    pub mode: Option<Mode>,
+    pub o: Opnd,
+}
+
+pub struct MatrixSub;
+
+fn any_present(c: &Cell) -> bool {
+    c.l != UOpt::Absent || c.s != UOpt::Absent || c.inc.is_some() || c.mode.is_some()
+}
+
+fn eval_cell(c: &Cell) -> Outcome {
+    let op = c.op;
+    let v = verdict(op, c.l, c.s, c.inc, c.mode, &c.o);
+    let got = exec(op, c.l, c.s, c.inc, c.mode, &c.o);
+    let mut o = Outcome::pass().class(op.name());
+    let sig = |what: &str| format!("C10/{}/{}", op.name(), what);
+    let opts = || format!("largest={:?} smallest={:?} inc={:?} mode={:?}", c.l, c.s, c.inc, c.mode);
+    match v {
+        Verdict::Unjudged(_) => {
+            o = o.class("unjudged");
+            o.unjudged = true;
+            // a panic still counts
+            if let Res::Panic(loc, msg) = &got {
+                o = o.fail(sig(&format!("unjudged-cell/panic@{loc}")), "no panic", format!("{msg} [{}]", opts()));
+            }
+        }
+        Verdict::Reject(rule) => {
+            o = o.class("reject").nontrivial(any_present(c));
+            let ok = matches!(&got, Res::Err(k, _) if *k == "Range");
+            if !ok {
+                // narrow models of the defects found here (see the kf fragment): a smallestUnit / unit
+                // of `auto` passes the unit validation and reaches the `Auto` arm of
+                // Unit::to_maximum_rounding_increment (`unreachable!()`), or, in Duration::total, a
+                // `temporal_unwrap` of Unit::as_nanoseconds (debug assertion / Assert error)
+                let s = if c.s == UOpt::Auto && matches!(&got, Res::Panic(loc, msg) if loc.starts_with("src/options.rs:") && msg == "internal error: entered unreachable code") {
+                    format!("C10/{}/smallest-auto/panic:unreachable@src/options.rs(to_maximum_rounding_increment)", op.class())
+                } else if c.s == UOpt::Auto
+                    && op.is_duration_total()
+                    && matches!(&got, Res::Panic(loc, msg) if loc.starts_with("src/lib.rs:") && msg == "assertion failed: self.is_some()")
+                {
+                    "C10/Duration.total/unit-auto/panic:temporal_unwrap-debug-assert@src/lib.rs".to_string()
+                } else {
+                    sig(&format!("reject-expected[{}]/got-{}", rule_tag(rule), got.label()))
+                };
+                o = o.fail(s, format!("Err(Range) [{rule}] for {}", opts()), got.show());
+            }
+        }
+        Verdict::AcceptThenRange(_) => {
+            o = o.class("accept-but-computation-out-of-range").nontrivial(false);
+            let ok = matches!(&got, Res::Err(k, _) if *k == "Range");
+            if !ok {
+                o = o.fail(
+                    sig(&format!("legal-options-unreachable-date/range-error-expected/got-{}", got.label())),
+                    format!("Err(Range) from the computation for {}", opts()),
+                    got.show(),
+                );
+            }
+        }
+        Verdict::Accept(r) => {
+            let resolves_default = matches!(c.l, UOpt::Absent | UOpt::Auto) && r.largest.is_some() || c.s == UOpt::Absent || c.mode.is_none() && !op.is_duration_total();
+            o = o.class("accept").nontrivial(resolves_default);
+            let val = match &got {
+                Res::Ok(v) => v.clone(),
+                other => {
+                    // narrow model: GetDifferenceSettings of the time-group operations validates
+                    // largestUnit without allowing `auto`
+                    let s = if c.l == UOpt::Auto
+                        && op.class() == "diff[time-group]"
+                        && matches!(other, Res::Err(k, m) if *k == "Range" && m == "Unit was not part of the time unit group.")
+                    {
+                        "C10/diff[time-group]/largest-auto/legal-cell-rejected:Range(not part of the time unit group)".to_string()
+                    } else {
+                        sig(&format!("accept-expected/got-{}", other.label()))
+                    };
+                    return o.fail(s, format!("Ok for {}", opts()), other.show());
+                }
+            };
+            if op.is_duration_total() {
+                return o;
+            }
+            // ---- defaults: the same call with every resolved option written out
+            let l_exp = match r.largest {
+                Some(u) => UOpt::U(u),
+                None => c.l,
+            };
+            let (s_exp, inc_exp, m_exp) = (UOpt::U(r.smallest), Some(r.inc), Some(r.mode));
+            if (l_exp, s_exp, inc_exp, m_exp) != (c.l, c.s, c.inc, c.mode) {
+                let exp = exec(op, l_exp, s_exp, inc_exp, m_exp, &c.o);
+                let same = matches!(&exp, Res::Ok(v2) if v2.same(&val));
+                if !same && !o.failed() {
+                    let what = if c.mode.is_none() && {
+                        // is the mode default alone responsible?
+                        let e2 = exec(op, c.l, c.s, c.inc, m_exp, &c.o);
+                        !matches!(&e2, Res::Ok(v2) if v2.same(&val))
+                    } {
+                        "defaults/mode-default"
+                    } else if !matches!(&exp, Res::Ok(_)) {
+                        "defaults/explicit-form-rejected"
+                    } else {
+                        "defaults/explicit-form-differs"
+                    };
+                    o = o.fail(
+                        sig(what),
+                        format!("same result as largest={:?} smallest={:?} inc={:?} mode={:?}: {}", l_exp, s_exp, inc_exp, m_exp, exp.show()),
+                        format!("{} for {}", got.show(), opts()),
+                    );
+                }
+            }
+            // ---- operations without a largestUnit option must not read it
+            if r.largest.is_none() && c.l != UOpt::Absent && !o.failed() {
+                let e2 = exec(op, UOpt::Absent, c.s, c.inc, c.mode, &c.o);
+                if !matches!(&e2, Res::Ok(v2) if v2.same(&val)) {
+                    o = o.fail(sig("largest-unit-not-ignored"), e2.show(), format!("{} for {}", got.show(), opts()));
+                }
+            }
+            // ---- since = -(until with the negated mode)
+            if let Some((_, true, until_op)) = op.diff() {
+                if !o.failed() {
+                    let e2 = exec(until_op, l_exp, s_exp, inc_exp, Some(r.mode.negated()), &c.o);
+                    let same = matches!(&e2, Res::Ok(v2) if v2.negated().same(&val));
+                    if !same {
+                        o = o.fail(
+                            sig("since-negation"),
+                            format!("negated result of until with mode {:?}: {}", r.mode.negated(), e2.show()),
+                            format!("{} for {}", got.show(), opts()),
+                        );
+                    }
+                }
+            }
+        }
+    }
+    o
+}
+
+fn rule_tag(rule: &str) -> &'static str {
+    if rule.contains("group") {
+        "unit-group"
+    } else if rule.contains("smaller than") {
+        "largest<smallest"
+    } else if rule.contains("increment") {
+        "increment"
+    } else if rule.contains("disallowed") {
+        "disallowed-unit"
+    } else if rule.contains("relativeTo") {
+        "no-relativeTo"
+    } else {
+        "other"
+    }
+}
+
+impl SubCheck for MatrixSub {
+    type Case = Cell;
+    fn name(&self) -> &'static str {
+        "matrix"
+    }
+    fn eval(&self, c: &Cell) -> Outcome {
+        eval_cell(c)
+    }
+}
+
+// ------------------------------------------------------------------------------------------
+// toString matrix
+
+#[derive(Clone, Copy, Debug, PartialEq, Eq, Serialize, Deserialize, Hash)]
+pub enum SOp {
+    Time,
+    DateTime,
+    InstantZ,
+    InstantRuleZone,
+    ZonedUtc,
+    ZonedRule,
+    Duration,
+}
+pub const SOPS: [SOp; 7] = [SOp::Time, SOp::DateTime, SOp::InstantZ, SOp::InstantRuleZone, SOp::ZonedUtc, SOp::ZonedRule, SOp::Duration];
+impl SOp {
+    fn name(self) -> &'static str {
+        match self {
+            SOp::Time => "PlainTime.toString",
+            SOp::DateTime => "PlainDateTime.toString",
+            SOp::InstantZ => "Instant.toString",
+            SOp::InstantRuleZone => "Instant.toString[timeZone]",
+            SOp::ZonedUtc => "ZonedDateTime[UTC].toString",
+            SOp::ZonedRule => "ZonedDateTime[rule-zone].toString",
+            SOp::Duration => "Duration.toString",
+        }
+    }
+}
+
+#[derive(Clone, Debug, Serialize, Deserialize)]
+pub struct StrCell {
+    pub op: SOp,
+    pub s: UOpt,
+    pub p: Prec,
+    pub mode: Option<Mode>,
+    pub o: Opnd,
+}
+
+fn precs() -> Vec<Prec> {
+    let mut v = vec![Prec::Auto, Prec::Minute];
+    for d in 0..=10u8 {
+        v.push(Prec::Digit(d));
+    }
+    v.push(Prec::Digit(255));
+    v
+}
+
+fn run_str(op: SOp, s: UOpt, p: Prec, m: Option<Mode>, o: &Opnd) -> temporal_rs::TemporalResult<Val> {
+    let opts = ToStringRoundingOptions {
+        precision: match p {
+            Prec::Auto => Precision::Auto,
+            Prec::Minute => Precision::Minute,
+            Prec::Digit(d) => Precision::Digit(d),
+        },
+        smallest_unit: uo(s),
+        rounding_mode: m.map(mode),
+    };
+    let (d0, n0) = (day_of(o.t0), ns_of(o.t0));
+    use temporal_rs::options::{DisplayCalendar, DisplayOffset, DisplayTimeZone};
+    match op {
+        SOp::Time => plain_time(n0 as i128).expect("operand").to_ixdtf_string(opts),
+        SOp::DateTime => plain_datetime(Dt { day: d0, ns: n0 as i128 }).expect("operand").to_ixdtf_string(opts, DisplayCalendar::Auto),
+        SOp::InstantZ => Instant::try_new(o.t0 as i128).expect("operand").to_ixdtf_string_with_provider(None, opts, provider()),
+        SOp::InstantRuleZone => Instant::try_new(o.t0 as i128).expect("operand").to_ixdtf_string_with_provider(Some(&tz_rule()), opts, provider()),
+        SOp::ZonedUtc | SOp::ZonedRule => {
+            let tz = if op == SOp::ZonedUtc { tz_utc() } else { tz_rule() };
+            ZonedDateTime::try_new(o.t0 as i128, iso(), tz).expect("operand").to_ixdtf_string_with_provider(
+                DisplayOffset::Auto,
+                DisplayTimeZone::Auto,
+                DisplayCalendar::Auto,
+                opts,
+                provider(),
+            )
+        }
+        SOp::Duration => duration_from_f64s(&o.dur.map(|x| x as f64)).expect("operand").as_temporal_string(opts),
+    }
+    .map(Val::S)
+}
+
+fn exec_str(op: SOp, s: UOpt, p: Prec, m: Option<Mode>, o: &Opnd) -> Res {
+    to_res(guard(|| run_str(op, s, p, m, o)))
+}
+
+pub struct ToStringSub;
+impl SubCheck for ToStringSub {
+    type Case = StrCell;
+    fn name(&self) -> &'static str {
+        "tostring"
+    }
+    fn eval(&self, c: &StrCell) -> Outcome {
+        let (v, _prec) = to_string(c.s, c.p, c.mode, c.op == SOp::Duration);
+        let got = exec_str(c.op, c.s, c.p, c.mode, &c.o);
+        let mut o = Outcome::pass().class(c.op.name());
+        let sig = |what: &str| format!("C10/{}/{}", c.op.name(), what);
+        let opts = || format!("smallest={:?} precision={:?} mode={:?}", c.s, c.p, c.mode);
+        match v {
+            Verdict::Unjudged(_) => {
+                o = o.class("unjudged");
+                o.unjudged = true;
+                if let Res::Panic(loc, msg) = &got {
+                    o = o.fail(sig(&format!("unjudged-cell/panic@{loc}")), "no panic", format!("{msg} [{}]", opts()));
+                }
+            }
+            Verdict::Reject(rule) => {
+                o = o.class("reject").nontrivial(c.s != UOpt::Absent || c.p != Prec::Auto || c.mode.is_some());
+                if !matches!(&got, Res::Err(k, _) if *k == "Range") {
+                    o = o.fail(sig(&format!("reject-expected/got-{}", got.label())), format!("Err(Range) [{rule}] for {}", opts()), got.show());
+                }
+            }
+            Verdict::AcceptThenRange(_) => unreachable!(),
+            Verdict::Accept(r) => {
+                let smallest_wins = c.s != UOpt::Absent && c.p != Prec::Auto;
+                o = o.class("accept").nontrivial(c.mode.is_none() || smallest_wins);
+                let val = match &got {
+                    Res::Ok(v) => v.clone(),
+                    other => return o.fail(sig(&format!("accept-expected/got-{}", other.label())), format!("Ok for {}", opts()), other.show()),
+                };
+                if c.mode.is_none() {
+                    let e2 = exec_str(c.op, c.s, c.p, Some(r.mode), &c.o);
+                    if !matches!(&e2, Res::Ok(v2) if v2.same(&val)) {
+                        o = o.fail(sig("defaults/mode-default"), format!("same as mode {:?}: {}", r.mode, e2.show()), format!("{} for {}", got.show(), opts()));
+                    }
+                }
+                if smallest_wins && !o.failed() {
+                    let e2 = exec_str(c.op, c.s, Prec::Auto, c.mode, &c.o);
+                    if !matches!(&e2, Res::Ok(v2) if v2.same(&val)) {
+                        o = o.fail(sig("smallest-unit-does-not-win-over-digits"), e2.show(), format!("{} for {}", got.show(), opts()));
+                    }
+                }
+            }
+        }
+        o
+    }
+}
+
+// ------------------------------------------------------------------------------------------
+// enumeration
+
+struct Dim {
+    op: Op,
+    ls: Vec<UOpt>,
+    ss: Vec<UOpt>,
+    incs: Vec<Option<u32>>,
+    modes: Vec<Option<Mode>>,
+}
+impl Dim {
+    fn len(&self) -> u64 {
+        (self.ls.len() * self.ss.len() * self.incs.len() * self.modes.len()) as u64
+    }
+    fn cell(&self, mut i: u64, o: Opnd) -> Cell {
+        let m = self.modes[(i % self.modes.len() as u64) as usize];
+        i /= self.modes.len() as u64;
+        let inc = self.incs[(i % self.incs.len() as u64) as usize];
+        i /= self.incs.len() as u64;
+        let s = self.ss[(i % self.ss.len() as u64) as usize];
+        i /= self.ss.len() as u64;
+        let l = self.ls[i as usize];
+        Cell { op: self.op, l, s, inc, mode: m, o }
+    }
+}
+
+fn dims() -> Vec<Dim> {
+    let units_and_auto: Vec<UOpt> = all_uopts().into_iter().filter(|u| *u != UOpt::Absent).collect();
+    OPS.iter()
+        .map(|&op| {
+            if op.is_duration_total() {
+                // total(unit): the unit is a required argument of the Rust API; no increment, no mode
+                Dim { op, ls: vec![UOpt::Absent], ss: units_and_auto.clone(), incs: vec![None], modes: vec![None] }
+            } else if op == Op::TimeRound {
+                // PlainTime::round(unit, increment, mode): no largestUnit, the unit is a required argument
+                Dim { op, ls: vec![UOpt::Absent], ss: units_and_auto.clone(), incs: INCS.to_vec(), modes: all_modes() }
+            } else {
+                Dim { op, ls: all_uopts(), ss: all_uopts(), incs: INCS.to_vec(), modes: all_modes() }
+            }
+        })
+        .collect()
+}
+
+/// generated operand sets for the thorough tier: mid-range points (1850..2100) up to 150 years apart (everything stays within the i64 nanosecond line, 1678..2262) in
+/// either direction, durations with small-to-moderate fields of one sign
+fn generated_operands(seed: u64, n: usize) -> Vec<Opnd> {
+    use proptest::prelude::*;
+    let strat = (
+        (to_days(1850, 1, 1)..=to_days(2100, 1, 1)),
+        crate::gen::ns_of_day(),
+        prop::bool::ANY,
+        (0i64..=150, 0i64..=11, 0i64..=30),
+        crate::gen::ns_of_day(),
+        prop::bool::ANY,
+        ((0i64..=50, 0i64..=30, 0i64..=60, 0i64..=400, 0i64..=100), (0i64..=200, 0i64..=200, 0i64..=2000, 0i64..=2000, 0i64..=2000)),
+        0u16..1024,
+    )
+        .prop_map(|(d0, n0, back, (dy, dm, dd), n1, dneg, (da, db), mask)| {
+            let t0 = d0 * DAY + n0 as i64;
+            let a = Ymd::from_n(d0);
+            let sign = if back { -1 } else { 1 };
+            let (y1, m1) = balance_ym(a.y + sign * dy, a.m as i64 + sign * dm);
+            let d1 = to_days(y1, m1, a.d.min(dim(y1, m1))) + sign * dd;
+            let mut t1 = d1 * DAY + n1 as i64;
+            if t1 == t0 {
+                t1 += 1_234_567_891;
+            }
+            let mut dur = [da.0, da.1, da.2, da.3, da.4, db.0, db.1, db.2, db.3, db.4];
+            for i in 0..10 {
+                if mask & (1 << i) != 0 {
+                    dur[i] = 0;
+                }
+            }
+            if dur.iter().all(|x| *x == 0) {
+                dur[3] = 1;
+                dur[9] = 1;
+            }
+            if dneg {
+                dur = dur.map(|x| -x);
+            }
+            Opnd { t0, t1, dur }
+        });
+    sample_strategy(&strat, seed, n)
+}
+
+pub fn run(ctx: &mut Ctx) {
+    ctx.rule = "complete enumeration of {14 until/since operations (PlainDate, PlainDateTime, PlainTime, PlainYearMonth, Instant, ZonedDateTime in UTC and in a rule-table zone), Duration.round (no relativeTo / PlainDate relativeTo / calendar units without relativeTo), PlainDateTime.round, Instant.round} x largestUnit {absent, auto, 10 units} x smallestUnit {absent, auto, 10 units} x 29 increments (absent, 1, divisors and non-divisors of 24/60/1000, maxima, maxima+1, 1440, 86400, 86400000, 1e9) x mode {absent, 9 modes}; PlainTime.round (unit x increment x mode), Duration.total (unit, 3 variants); toString matrix: 7 operations x smallestUnit {absent, auto, 10 units} x precision {auto, minute, 0..=10, 255} x mode {absent, 9}. Every cell is evaluated on each operand set (four fixed sets: 2019-03-14T01:02:03.004005006 / 2024-12-31T17:42:38.571683947 forwards and backwards, the same day at two times, two days of one month; + 6 generated sets in the quick tier / 60 in the thorough tier; the generated sets depend on VERIF_SEED and are listed in the evidence under operand_sets). Verdict of each cell from the table oracle c10/options.rs: reject => Err(Range) required (Ok, another kind, Assert or a panic fails the cell); accept => Ok required, and the result must equal the result of the same call with all resolved defaults written out (auto/absent largest = larger of the operation default and smallest; absent smallest = fallback; absent increment = 1; absent mode = trunc for until/since/toString, halfExpand for round), since(mode m) must equal the negated until(negated m). non-trivial = (at least one option present and verdict reject) or (accepted and largestUnit absent/auto, smallestUnit absent or mode absent, i.e. a default has to be resolved).".into();
+    ctx.assumptions = vec![
+        "oracle written from GetDifferenceSettings / Duration.prototype.round / total / *.prototype.round / ToSecondsStringPrecisionRecord / ValidateTemporalRoundingIncrement (DESIGN.md Appendix A); self-tested on hand-derived cells at start".into(),
+        "'rejects before computing anything' is observed only as 'rejects with operands for which the computation would succeed'".into(),
+        "PlainDateTime.round / Instant.round have no largestUnit option in Temporal: whatever RoundingOptions.largest_unit holds must be ignored".into(),
+    ];
+    match options::self_test() {
+        Ok(n) => ctx.note(format!("options oracle self-test: {n} hand-derived cells ok")),
+        Err(e) => {
+            println!("INCONCLUSIVE property=C10 {e}");
+            std::process::exit(2);
+        }
+    }
+    ctx.note("unjudged: Duration.round cells with increment > 1, a date smallestUnit and largestUnit != smallestUnit (Temporal added a RangeError for them after this crate's snapshot of the specification; the property text does not settle which edition applies)");
+    ctx.note("unjudged: toString cells whose precision is not a Temporal fractionalSecondDigits value (Precision::Minute without smallestUnit; Precision::Minute or Digit(>9) together with a smallestUnit: Temporal validates fractionalSecondDigits even when smallestUnit wins, but that option is outside the property's four options)");
+    ctx.note("cells 'accept-but-computation-out-of-range': legal options whose increment (8.64e7 / 1e9 calendar units) forces NudgeToCalendarUnit to build a date outside the supported range; a RangeError is specified either way, so only Err(Range) is demanded and the cell is not counted as non-trivial");
+
+    let mut sets = fixed_operands();
+    let n_generated = ctx.tier.pick(6, 60) as usize;
+    sets.extend(generated_operands(ctx.sub_seed("operands", 0), n_generated));
+    ctx.extra.insert("operand_sets".into(), json!(sets));
+
+    if std::env::var("C10_EXPLORE").is_ok() {
+        explore(&sets);
+        return;
+    }
+
+    // ---- main matrix
+    let dims = dims();
+    let mut starts = vec![0u64];
+    for d in &dims {
+        starts.push(starts.last().unwrap() + d.len());
+    }
+    let per_set = *starts.last().unwrap();
+    let total = per_set * sets.len() as u64;
+    let make = |i: u64| -> Cell {
+        // operation-major so that a lane works on one operation at a time
+        let set = (i % sets.len() as u64) as usize;
+        let j = i / sets.len() as u64;
+        let k = match starts.binary_search(&j) {
+            Ok(k) => k,
+            Err(k) => k - 1,
+        };
+        dims[k].cell(j - starts[k], sets[set])
+    };
+    ctx.run_enum(&MatrixSub, total, &make, true);
+
+    // ---- toString matrix
+    let (ss, ps, ms) = (all_uopts(), precs(), all_modes());
+    let per = (SOPS.len() * ss.len() * ps.len() * ms.len()) as u64;
+    let make_s = |i: u64| -> StrCell {
+        let set = (i / per) as usize;
+        let mut j = i % per;
+        let m = ms[(j % ms.len() as u64) as usize];
+        j /= ms.len() as u64;
+        let p = ps[(j % ps.len() as u64) as usize];
+        j /= ps.len() as u64;
+        let s = ss[(j % ss.len() as u64) as usize];
+        j /= ss.len() as u64;
+        StrCell { op: SOPS[j as usize], s, p, mode: m, o: sets[set] }
+    };
+    ctx.run_enum(&ToStringSub, per * sets.len() as u64, &make_s, true);
+    ctx.extra.insert("cells_per_operand_set".into(), json!({"matrix": per_set, "tostring": per}));
+}
+
+/// development aid (`C10_EXPLORE=1`): evaluate every cell and print a histogram of failure signatures
+fn explore(sets: &[Opnd]) {
+    let mut hist: BTreeMap<String, (u64, String)> = BTreeMap::new();
+    let mut n = 0u64;
+    for d in dims() {
+        for i in 0..d.len() {
+            for o in sets {
+                let c = d.cell(i, *o);
+                let out = eval_guarded("C10", &MatrixSub, &c);
+                n += 1;
+                if let Some(f) = out.fail {
+                    let e = hist.entry(f.sig.clone()).or_insert((0, format!("{} || expected {} || actual {}", serde_json::to_string(&c).unwrap(), f.expected, f.actual)));
+                    e.0 += 1;
+                }
+            }
+        }
+    }
+    let (ss, ps, ms) = (all_uopts(), precs(), all_modes());
+    for op in SOPS {
+        for s in &ss {
+            for p in &ps {
+                for m in &ms {
+                    for o in sets {
+                        let c = StrCell { op, s: *s, p: *p, mode: *m, o: *o };
+                        let out = eval_guarded("C10", &ToStringSub, &c);
+                        n += 1;
+                        if let Some(f) = out.fail {
+                            let e = hist.entry(f.sig.clone()).or_insert((0, format!("{} || expected {} || actual {}", serde_json::to_string(&c).unwrap(), f.expected, f.actual)));
+                            e.0 += 1;
+                        }
+                    }
+                }
+            }
+        }
+    }
+    println!("explored {n} cells");
+    for (k, (c, ex)) in hist {
+        println!("{c:>8}  {k}\n          {ex}");
+    }
+}
+
+pub fn replay(ctx: &mut Ctx, sub: &str, case: &Value) -> bool {
+    match sub {
+        "matrix" => ctx.replay_case(&MatrixSub, case),
+        "tostring" => ctx.replay_case(&ToStringSub, case),
+        _ => false,
+    }
 }
